@@ -610,6 +610,61 @@ def check_sim(l, rng, out):
     sim.run()
     if bad:
         raise V(bad[0][0], **bad[0][1])
+    check_dynamic_element_fields(l, rng, out, tbv, size)
+
+
+def check_dynamic_element_fields(l, rng, out, tbv, size):
+    """Testbench writes and reads through an array view indexed by a *signal*, into a field of the selected element
+    (a part select with enclosing slices): exactly that field of that element changes."""
+    from amaranth.hdl import Signal, Value, Module
+    from amaranth.sim import Simulator
+    todo = []
+    for apath, arr, aoff in array_nodes(l):
+        n, ew = arr[2], lsize(arr[1])
+        if n < 2 or ew == 0 or is_leaf(arr[1]):
+            continue
+        sub = [x for x in leaf_paths(arr[1]) if lsize(x[1]) > 0 and x[1][0] != "enum"]
+        if sub:
+            todo.append((apath, arr, aoff, n, ew, sub))
+    if not todo:
+        return
+    idx = Signal(range(max(t[3] for t in todo)), name="dyn_idx")
+    m = Module()
+    keep = Signal()
+    m.d.comb += keep.eq(Value.cast(tbv).any() ^ idx.any())
+    sim = Simulator(m)
+    bad = []
+
+    async def tb(ctx):
+        for apath, arr, aoff, n, ew, sub in todo[:3]:
+            for i in range(n):
+                spath, leaf, off = rng.choice(sub)
+                w = lsize(leaf)
+                raw, v = rng.getrandbits(size), rng.getrandbits(8)
+                ctx.set(Value.cast(tbv), raw)
+                ctx.set(idx, i)
+                base = view_path(tbv, apath) if apath else tbv
+                target = view_path(base[idx], spath)
+                pos = aoff + i * ew + off
+                got_field = ctx.get(Value.cast(target)) & ((1 << w) - 1)
+                if got_field != (raw >> pos) & ((1 << w) - 1):
+                    bad.append(("dynamic-element-field-read", dict(path=list(apath) + ["[idx]"] + list(spath), index=i, raw=raw, got=got_field,
+                                                                   expected=(raw >> pos) & ((1 << w) - 1))))
+                    return
+                ctx.set(Value.cast(target), v & ((1 << w) - 1) if leaf[0] != "s" else norm(v, w, True))
+                exp = (raw & ~(((1 << w) - 1) << pos)) | ((v & ((1 << w) - 1)) << pos)
+                got = ctx.get(Value.cast(tbv))
+                out["evaluations"] += 1
+                out["extra"]["view_writes"] += 1
+                if got != exp:
+                    bad.append(("dynamic-element-field-assignment-ctx-set", dict(path=list(apath) + ["[idx]"] + list(spath), index=i, raw=raw,
+                                                                                 value=v, got=got, expected=exp)))
+                    return
+    sim.add_testbench(tb)
+    sim.run()
+    out["hist"]["dynamic-element-field-cases"] = out["hist"].get("dynamic-element-field-cases", 0) + 1
+    if bad:
+        raise V(bad[0][0], **bad[0][1])
 
 
 def check_mixed_drivers(l, rng, out):
